@@ -1,11 +1,12 @@
 """C03 - decoder accepts every spec-valid encoding (any block layout), rejects
 out-of-range indices and truncated input, on the read path and the skip path."""
 import io
+import os
 
 import fastavro
 from hypothesis import strategies as st
 
-from .. import gen, bincase
+from .. import gen, bincase, env
 from ..ref import model as M
 from ..ref import binary as B
 from ..runner import Check, Violation, guard, outcome, HarnessError
@@ -87,7 +88,112 @@ class C03(Check):
         v = fastavro.schemaless_reader(fo, w, r)
         return v, fo.tell()
 
+    # ------------------------------------------------------------------ atheris supplement
+    def supplement(self, tier, seed):
+        """Coverage-guided byte-level differential fuzzing (vlib/fuzz_c03.py); crashing inputs come back as cases."""
+        import glob
+        import re
+        import shutil
+        import subprocess
+        import sys
+        import tempfile
+        from ..fuzzschemas import SCHEMAS
+
+        try:
+            sys.path.insert(0, os.path.join(env.VERIF_ROOT, ".deps"))
+            import atheris  # noqa: F401
+        except Exception:
+            return [], {"fuzz_executions": 0, "fuzz_note": "atheris not importable; byte-level supplement skipped"}
+        procs, runs = (1, 6000) if tier == "quick" else (16, 150000)
+        work = tempfile.mkdtemp(prefix="fz", dir=os.path.join(env.VERIF_ROOT, "scratch") if os.path.isdir(os.path.join(env.VERIF_ROOT, "scratch")) else None)
+        try:
+            corpus = os.path.join(work, "corpus")
+            os.makedirs(corpus)
+            # seed corpus: one small valid encoding per schema (the empty corpus is exercised by odd-numbered processes)
+            for i, s in enumerate(SCHEMAS):
+                node, table = M.resolve(s)
+                for j, datum in enumerate(self._seed_data(node, table)):
+                    try:
+                        enc, _ = B.encode(node, table, datum)
+                    except Exception:
+                        continue
+                    with open(os.path.join(corpus, f"s{i}_{j}"), "wb") as fo:
+                        fo.write(bytes([i]) + enc)
+            ps = []
+            for p in range(procs):
+                art = os.path.join(work, f"art{p}")
+                os.makedirs(art)
+                own = os.path.join(work, f"c{p}")
+                os.makedirs(own)
+                cmd = [sys.executable, os.path.join(env.VERIF_ROOT, "vlib", "fuzz_c03.py"), f"-runs={runs}", f"-seed={(seed * 1000 + p) % (2**31 - 1) + 1}",
+                       "-rss_limit_mb=4096", "-max_len=256", "-timeout=60", f"-artifact_prefix={art}/", own] + ([corpus] if p % 2 == 0 else [])
+                ps.append((p, art, subprocess.Popen(cmd, stdout=subprocess.PIPE, stderr=subprocess.STDOUT, text=True, cwd=env.VERIF_ROOT)))
+            total = 0
+            cases = []
+            notes = []
+            for p, art, proc in ps:
+                out, _ = proc.communicate()
+                m = re.findall(r"Done (\d+) runs", out)
+                if m:
+                    total += int(m[-1])
+                else:
+                    m2 = re.findall(r"#(\d+)\s", out)
+                    total += int(m2[-1]) if m2 else 0
+                for f in sorted(glob.glob(os.path.join(art, "*"))):
+                    data = open(f, "rb").read()
+                    kind = os.path.basename(f).split("-")[0]
+                    if kind in ("crash",) and data:
+                        cases.append({"kind": "fuzz", "schema_idx": data[0] % len(SCHEMAS), "bytes": data[1:]})
+                    else:
+                        notes.append(f"{kind}:{data[:12].hex()}")
+            cov = {"fuzz_executions": total, "fuzz_processes": procs, "fuzz_crashing_inputs": len(cases)}
+            if notes:
+                cov["fuzz_non_crash_artifacts"] = notes[:5]
+            return cases, cov
+        finally:
+            shutil.rmtree(work, ignore_errors=True)
+
+    def _seed_data(self, node, table):
+        k = M.deref(node, table)["k"]
+        base = {"null": [None], "boolean": [True], "int": [1, -64], "long": [2**40], "float": [1.5], "double": [-2.5], "bytes": [b"ab"], "string": ["hi"]}
+        if k in base:
+            return base[k]
+        from ..checks.c10 import C10
+        g = C10()._good_record(node, table)
+        return [g[0]] if g else []
+
+    def _fuzz_case(self, case, labels):
+        from ..fuzzschemas import SCHEMAS
+        idx = case["schema_idx"]
+        data = bytes(case["bytes"])
+        js = SCHEMAS[idx]
+        node, table = M.resolve(js)
+        labels.add("fuzz-input")
+        B.ITEM_BUDGET = [20000]
+        try:
+            want, pos = B.decode(node, table, data, 0)
+            ref = ("ok", want, pos)
+        except B.RefError as e:
+            if "item budget" in str(e):
+                return labels
+            ref = ("err", e.kind)
+        finally:
+            B.ITEM_BUDGET = None
+        if ref[0] == "err" and ref[1] not in ("index", "eof"):
+            return labels
+        o = outcome(self._read, fastavro.parse_schema(js), data)
+        if ref[0] == "ok":
+            if o[0] != "ok":
+                raise Violation("fuzz:valid-encoding-rejected", f"reference decodes {ref[1]!r:.100} but fastavro raised {type(o[1]).__name__}; schema={js!r:.200} bytes={data.hex()[:80]}", exc=o[1])
+            if not B.same(o[1][0], ref[1]) or o[1][1] != ref[2]:
+                raise Violation("fuzz:decode-differs", f"fastavro {o[1][0]!r:.100} after {o[1][1]} bytes, reference {ref[1]!r:.100} after {ref[2]}; schema={js!r:.200} bytes={data.hex()[:80]}")
+        elif ref[1] in ("index", "eof") and o[0] == "ok":
+            raise Violation("fuzz:bad-input-accepted:" + ref[1], f"reference rejects ({ref[1]}) but fastavro returned {o[1][0]!r:.100}; schema={js!r:.200} bytes={data.hex()[:80]}")
+        return labels
+
     def run_case(self, case):
+        if case.get("kind") == "fuzz":
+            return self._fuzz_case(case, set())
         js = case["schema"]
         node, table = M.resolve(js)
         enc = bytes(case["enc"])
